@@ -236,6 +236,15 @@ class SymStr:
             ch.pop()
         return SymStr(ch)
 
+    def ljust(self, width, fill=" "):
+        return SymStr(self.chars + [fill] * max(0, width - len(self.chars)))
+
+    def rjust(self, width, fill=" "):
+        return SymStr([fill] * max(0, width - len(self.chars)) + self.chars)
+
+    def zfill(self, width):
+        return self.rjust(width, "0")
+
     def upper(self):
         return SymStr([c.upper() if isinstance(c, str) else c for c in self.chars])
 
